@@ -83,6 +83,10 @@ func (s *sess) refusalProblems(t *an.Trace, allowStateToNonLogged bool) []string
 			}
 		case "cancel":
 			probs = append(probs, "stops the session ("+e.Name+")")
+		case "setfield":
+			if e.Name == "LogonSettings" {
+				probs = append(probs, "replaces the session's settings (identifiers, heartbeat interval, credentials of the established session)")
+			}
 		case "spawn":
 			probs = append(probs, "spawns a goroutine")
 		case "clean":
@@ -290,6 +294,8 @@ func runC16(c *core.Ctx, o Options) {
 	}
 	// J4: what the rejects rely on — unparsable numeric fields make Unmarshal fail, and the raw lookup recognises tag 34 only at a field boundary
 	checkCodecs(c, "J4", map[string]bool{"frombytes": true})
+	// J2 premise: an administrative message reaches the handler of its type (which rejects it) whatever the all-types handlers returned
+	checkInboundDispatch(c, "J2")
 	if vbt := c.Func("fix", "ValueByTag"); vbt != nil {
 		n := needleCensus(c, "J4", []*ssa.Function{vbt})
 		c.Check(n >= 2, "J4", "ValueByTag", "anchored lookups found", vbt.Pos(), fmt.Sprint(n), "ValueByTag no longer searches with anchored needles")
@@ -405,6 +411,13 @@ func runC14(c *core.Ctx, o Options) {
 	hn := "inbound:TestRequest"
 	s.checkRegisteredOnce("Q0", true, "TestRequest")
 	checkUnboundedFieldRead(c, "Q4")
+	// Q4: the decoder looks for '=' only as part of an anchored tag needle and for the group separator — a value may contain '='
+	if enc := c.SSAPkg("fix/encoding"); enc != nil {
+		needleCensus(c, "Q4", pkgFuncs(enc))
+	}
+	// Q0: the TestRequest reaches its handler whatever the all-types handlers returned, and the handler stays registered
+	checkInboundDispatch(c, "Q0")
+	checkPoolGrowOnly(c, "Q0")
 	traces := s.tr.Traces(fn, s.m.AllStates)
 	target := s.checkParseFirst("Q0", "TestRequest", fn, traces)
 	sl := s.m.Set("SuccessfulLogged")
@@ -493,7 +506,7 @@ func runC14(c *core.Ctx, o Options) {
 	// Q3b: nothing between the handler and the outbound queue runs in another goroutine
 	checkSendChainNoSpawn(c, s, "Q3")
 	c.Extra["paths"] = len(traces)
-	c.RuleMin = map[string]int{"Q0": 4, "Q1": 1, "Q2": 1, "Q3": 7, "Q4": 7, "Q5": 1}
+	c.RuleMin = map[string]int{"Q0": 9, "Q1": 1, "Q2": 1, "Q3": 7, "Q4": 12, "Q5": 1}
 	c.MinObl = 7
 }
 
